@@ -303,9 +303,17 @@ def run_term(t, tn, L, r):
             r.case(nontrivial=(a[0] == "ok" and not vs), outcome="parse-" + a[0], validated=1)
             for x in vs:
                 r.violation(x["sig"], x["case"], x["detail"])
-            # accepted input: the value re-encodes to what the reference prescribes
-            if a[0] == "ok" and not vs and not ctxdep:
-                pass
+            # context-dependent terms have no generated value domain: every value read from an accepted input is built as well
+            if a[0] == "ok" and not vs and ctxdep:
+                v = T.denorm(a[1])
+                key = repr(v)
+                if key not in seen:
+                    seen.add(key)
+                    r.states += 1
+                    b, vs2 = cmp_build(t, d, v, kw, tsig)
+                    r.case(nontrivial=(b[0] == "ok" and not vs2), outcome="build-parsed-" + b[0], validated=1)
+                    for x in vs2:
+                        r.violation(x["sig"], x["case"], x["detail"])
     r.sample({"term": T.show(t), "tier": tn, "L": L, "strings": len(sigma(L))}, cap=2)
 
 
